@@ -240,3 +240,27 @@ Theorem C06_null_merge_repaired_vv : null_merge_is_delete = true ->
   let s := grun gsys0 ops_null_vv in
   vobs (gdoc s 1 0) = Some ((1, 30), 0, true) /\ vobs (gdoc s 2 0) = Some ((1, 30), 0, true).
 Proof. intros H. revert H. vm_compute. intros H. first [discriminate H | repeat split; reflexivity]. Qed.
+
+(* G. RAW re-delivery of a tombstone (the recorded finding vv:redelivered-tombstone-rewritten, its two faces).
+      C06_vv_redelivery_noop is about an offer made again THROUGH the negotiation (CheckChangeVersion answers "known").
+      A revision handed to PutExistingCurrentVersion twice (gput) is cancelled as "already present"
+      (C06_vv_raw_redelivery_cancelled) unless incoming and stored document are both tombstones: that branch
+      (allowConflictingTombstone) skips IsInConflict and adopts the incoming vector.  When the stored tombstone carries
+      the incoming current version the observables do not change (the implementation writes a new sequence); when the
+      stored tombstone is NEWER -- here the tombstone a merge resolver produced against the incoming tombstone, with its
+      own new current version -- the stored current version is REPLACED by the older incoming one. *)
+Definition ops_merged_tombstone : list gop :=
+  [GEdit 1 0 2 10; gpush 1 0; GEdit 2 0 3 20; GDelete 2 0 30; GEdit 1 0 4 40; gpull 1 (rs_fun (RSMerge 9)) 0 50].
+
+Theorem C06_raw_tombstone_redelivery_refuted :
+  let s := grun gsys0 ops_merged_tombstone in
+  exists x y, gdoc s 1 0 = Some x /\ gdoc s 2 0 = Some y /\
+    greg_from gsys0 ops_merged_tombstone = true /\
+    vobs (Some x) = Some ((1, 50), 0, true) /\ vobs (Some y) = Some ((2, 30), 0, true) /\
+    dominates (d_hlv x) (cv (d_hlv y)) = true /\
+    (* through the negotiation: known, nothing stored *)
+    gtransfer (Some (rs_fun (RSMerge 9))) 1 0 (gclk s 1) (Some y) (Some x) = (Some x, GKnown, gclk s 1) /\
+    (* raw: the merge's current version is replaced by the tombstone it had merged *)
+    vobs (fst (fst (gput (Some (rs_fun (RSMerge 9))) 1 0 (gclk s 1) y x))) = Some ((2, 30), 0, true) /\
+    snd (fst (gput (Some (rs_fun (RSMerge 9))) 1 0 (gclk s 1) y x)) = GApplied.
+Proof. eexists. eexists. split; [vm_compute; reflexivity|]. split; [vm_compute; reflexivity|]. vm_compute. repeat split; reflexivity. Qed.
